@@ -536,10 +536,21 @@ def rule_f(ctx, ix):
         raise AnalysisError('memoize wrapper signature is not (*args, **kwargs)')
     va, kw = a.vararg.arg, a.kwarg.arg
     # key = _make_key(args, kwargs) or inline expression depending on both
+    # the cache is the dict registered for clear_all_caches; the key is whatever it is subscripted with
+    regs = [c for c in calls_in(f.node) if call_name(c) == 'append' and '_MEMOIZE_CACHES' in unparse(c.func) and c.args
+            and isinstance(c.args[0], ast.Name)]
+    if len(regs) != 1:
+        raise AnalysisError('memoize: the cache is not registered exactly once for clear_all_caches')
+    memo = regs[0].args[0].id
+    subs = [n for n in ast.walk(w) if isinstance(n, ast.Subscript) and isinstance(n.value, ast.Name) and n.value.id == memo]
+    keys = {unparse(n.slice) for n in subs}
+    if len(keys) != 1 or not all(isinstance(n.slice, ast.Name) for n in subs):
+        raise AnalysisError('memoize: the cache is subscripted with %s (expected one key name)' % sorted(keys))
+    key = keys.pop()
     keydefs = [st for st in ast.walk(w) if isinstance(st, ast.Assign) and len(st.targets) == 1
-               and isinstance(st.targets[0], ast.Name) and st.targets[0].id == 'key']
+               and isinstance(st.targets[0], ast.Name) and st.targets[0].id == key]
     if not keydefs:
-        raise AnalysisError('memoize: no assignment to `key`')
+        raise AnalysisError('memoize: no assignment to the cache key `%s`' % key)
     for kd in keydefs:
         deps = _key_deps(ix, f.module, kd.value, va, kw)
         ctx.ob(R, f.construct, 'cache key depends on positional and keyword arguments', deps == {va, kw},
@@ -548,18 +559,26 @@ def rule_f(ctx, ix):
                where='%s:%d' % (f.module.relpath, kd.lineno))
     # every store memo[key] = X: X is func(*args, **kwargs)
     stores = [st for st in ast.walk(w) if isinstance(st, ast.Assign) and isinstance(st.targets[0], ast.Subscript)
-              and isinstance(st.targets[0].value, ast.Name) and st.targets[0].value.id == 'memo']
+              and isinstance(st.targets[0].value, ast.Name) and st.targets[0].value.id == memo]
     if not stores:
-        raise AnalysisError('memoize: no store into memo')
+        raise AnalysisError('memoize: no store into the cache')
     pm = parent_map(w)
     for st in stores:
-        key_ok = isinstance(st.targets[0].slice, ast.Name) and st.targets[0].slice.id == 'key'
+        key_ok = isinstance(st.targets[0].slice, ast.Name) and st.targets[0].slice.id == key
         val = st.value
-        if isinstance(val, ast.Name):
-            rd = [s for s in ast.walk(w) if isinstance(s, ast.Assign) and isinstance(s.targets[0], ast.Name)
-                  and s.targets[0].id == val.id]
-            val = rd[0].value if len(rd) == 1 else None
         ok = key_ok and _is_full_call(val, f.params[0], va, kw)
+        if key_ok and isinstance(val, ast.Name):
+            # the definition of the stored name that reaches the store: the nearest preceding one in the same block, else the only one
+            blk = pm.get(id(st))
+            seq = []
+            for fld in ('body', 'orelse', 'finalbody'):
+                if st in (getattr(blk, fld, None) or []):
+                    seq = getattr(blk, fld)
+            prev = [s for s in seq[:seq.index(st)] if isinstance(s, ast.Assign) and isinstance(s.targets[0], ast.Name)
+                    and s.targets[0].id == val.id] if seq else []
+            rd = prev[-1:] or [s for s in ast.walk(w) if isinstance(s, ast.Assign) and isinstance(s.targets[0], ast.Name)
+                               and s.targets[0].id == val.id]
+            ok = len(rd) == 1 and _is_full_call(rd[0].value, f.params[0], va, kw)
         ctx.ob(R, f.construct, 'value cached under key is func(*args, **kwargs)', ok,
                detail='memo store %s does not cache the result of func(*args, **kwargs) under key' % norm(st),
                where='%s:%d' % (f.module.relpath, st.lineno))
@@ -567,15 +586,26 @@ def rule_f(ctx, ix):
     for r in [n for n in ast.walk(w) if isinstance(n, ast.Return)]:
         v = r.value
         ok = False
-        if isinstance(v, ast.Subscript) and isinstance(v.value, ast.Name) and v.value.id == 'memo' \
-                and isinstance(v.slice, ast.Name) and v.slice.id == 'key':
-            ok = True
-        elif _is_full_call(v, f.params[0], va, kw):
+        def cached(x):
+            return isinstance(x, ast.Subscript) and isinstance(x.value, ast.Name) and x.value.id == memo \
+                and isinstance(x.slice, ast.Name) and x.slice.id == key
+        if cached(v) or _is_full_call(v, f.params[0], va, kw):
             ok = True
         elif isinstance(v, ast.Name):
             rd = [s for s in ast.walk(w) if isinstance(s, ast.Assign) and isinstance(s.targets[0], ast.Name)
                   and s.targets[0].id == v.id]
-            ok = len(rd) == 1 and _is_full_call(rd[0].value, f.params[0], va, kw)
+
+            def sentinel_replaced(s):
+                # `name = <sentinel>` is fine when `if name is <sentinel>: name = func(*args, **kwargs)` follows
+                if not isinstance(s.value, (ast.Name, ast.Constant)):
+                    return False
+                for i in ast.walk(w):
+                    if isinstance(i, ast.If) and unparse(i.test).replace(' ', '') == '%sis%s' % (v.id, unparse(s.value)) and \
+                            any(isinstance(b, ast.Assign) and unparse(b.targets[0]) == v.id and _is_full_call(b.value, f.params[0], va, kw)
+                                for b in i.body):
+                        return True
+                return False
+            ok = bool(rd) and all(cached(s.value) or _is_full_call(s.value, f.params[0], va, kw) or sentinel_replaced(s) for s in rd)
         ctx.ob(R, f.construct, 'wrapper returns memo[key] or func(*args, **kwargs)', ok,
                detail='memoize wrapper returns %s' % norm(r), where='%s:%d' % (f.module.relpath, r.lineno))
 
